@@ -425,6 +425,49 @@ func findCheck(ms *yang.Modules, order []*yang.Module, roots map[*yang.Module]*y
 				}
 			}
 		}
+		// absolute, from start nodes inside the trees: the prefixes that apply are those of the module in
+		// whose text the start node was written (a node grafted by an augment or copied from a grouping
+		// keeps the node of its defining module)
+		if len(st) <= 5 {
+			for si, start := range w.nodes {
+				if si%7 != int(uint(len(st))%7) && len(w.nodes) > 40 {
+					continue
+				}
+				if start.Node == nil || start.Node.Statement() == nil {
+					continue
+				}
+				ctx := yang.RootNode(start.Node)
+				if ctx == nil {
+					continue
+				}
+				prefix := ""
+				cown := ctx
+				if ctx.BelongsTo != nil {
+					cown = ms.Modules[ctx.BelongsTo.Name]
+				}
+				if cown == owner {
+					prefix = ctx.GetPrefix()
+				} else {
+					for _, i := range ctx.Import {
+						if i.Module == owner && i.Prefix != nil {
+							prefix = i.Prefix.Name
+						}
+					}
+				}
+				if prefix == "" {
+					continue
+				}
+				var parts []string
+				for _, s := range st {
+					parts = append(parts, prefix+":"+s.name)
+				}
+				p := "/" + strings.Join(parts, "/")
+				run.FindCount++
+				if got := start.Find(p); got != target {
+					bad("abs-from-node: Find(%q) from %s (written in %s) returned %s, want node id %d", p, start.Path(), ctx.Name, describe(got, w), w.ids[target])
+				}
+			}
+		}
 		// relative: from the parent's other children via ".."
 		if target.Parent != nil && target.Parent.Dir != nil {
 			for k, sib := range target.Parent.Dir {
